@@ -26,8 +26,7 @@ model: they *define* what an ignore comment is.  Everything else is independent 
 
 Also here: the exception class `D11_lineOneWrap` and the scope predicates used as hypotheses.
 -/
-namespace Pya
-namespace Emit
+namespace Pya.C11
 
 /-- The code of the diagnostic is switched on (diagnostics without a code cannot be disabled). -/
 def codeOn (en : String → Bool) (r : Raw) : Bool :=
@@ -109,6 +108,18 @@ def credited (lines : List Line) (r : Raw) : Option Nat :=
   | some i => some i
   | none => lineCredit lines r
 
+/-- Comment line `i`, taken by itself, would suppress `r`: it lies in the leading block and is an
+ignore comment for `r`'s code, or it targets `r` by position. -/
+def covers (lines : List Line) (i : Nat) (r : Raw) : Bool :=
+  (decide (i < (leading lines).length) && ownLineAt lines i r.code) || lineTargets lines i r
+
+/-- No counted diagnostic is covered by two different comment lines (true in particular when the
+file has a single ignore comment). -/
+def UniqueCover (en : String → Bool) (lines : List Line) (raw : List Raw) : Bool :=
+  (nub (raw.filter (counted en))).all fun r =>
+    (List.range lines.length).all fun i => (List.range lines.length).all fun j =>
+      !(covers lines i r && covers lines j r) || i == j
+
 /-- Line `i` is credited with some suppression. File-level credit is given on every counted call
 (the check precedes the duplicate filter, which makes no difference), line-level credit on first
 occurrences. -/
@@ -184,6 +195,19 @@ def wrapsAt (lines : List Line) (r : Raw) : Bool :=
 def D11_lineOneWrap (en : String → Bool) (lines : List Line) (raw : List Raw) : Bool :=
   (nub (raw.filter (counted en))).any fun r => !fileSuppressed lines r.code && wrapsAt lines r
 
+/-- The line boundaries of the Python tokenizer, which numbers the lines the AST (and hence every
+diagnostic) refers to: `\n`, `\r\n`, `\r`. -/
+def isTokBreak (c : Char) : Bool := c == '\n' || c == '\r'
+
+/-- The physical lines as the tokenizer counts them. -/
+def tokLines (src : List Char) : List Line := splitBy isTokBreak src [] false
+
+/-- **Exception class `splitlinesMismatch`** (node_visitor.py:236): the source contains a character
+that `str.splitlines()` treats as a line boundary and the tokenizer does not (form feed, `\x0b`,
+`\x1c`‥`\x1e`, `\x85`, `\u2028`, `\u2029` — anywhere: as white space, in a comment, in a string
+literal). From there on `lines[lineno - 1]` is not the line the diagnostic is on. -/
+def D11_splitlinesMismatch (src : List Char) : Bool := src.any fun c => isPyBreak c && !isTokBreak c
+
 /-- No line of the file carries an ignore comment. -/
 def NoIgnore (lines : List Line) : Bool := lines.all fun l => !hasSub IC l
 
@@ -230,5 +254,4 @@ move down by one). -/
 def Raw.shift (i : Nat) (r : Raw) : Raw :=
   { r with pos := r.pos.map fun (ln, c) => (if ln > i then ln + 1 else ln, c) }
 
-end Emit
-end Pya
+end Pya.C11
